@@ -528,6 +528,7 @@ func processStatementArrays(tree *ParserT, value []rune, v any, exec bool) error
 			for i := range t {
 				value = []rune(t[i])
 				appendToParam(tree, value...)
+				tree.statement.canHaveZeroLenStr = true // an empty element is still an argument
 				if err := tree.nextParameter(); err != nil {
 					return err
 				}
@@ -536,6 +537,7 @@ func processStatementArrays(tree *ParserT, value []rune, v any, exec bool) error
 			for i := range t {
 				value = t[i]
 				appendToParam(tree, value...)
+				tree.statement.canHaveZeroLenStr = true // an empty element is still an argument
 				if err := tree.nextParameter(); err != nil {
 					return err
 				}
@@ -544,6 +546,7 @@ func processStatementArrays(tree *ParserT, value []rune, v any, exec bool) error
 			for i := range t {
 				value = []rune(string(t[i]))
 				appendToParam(tree, value...)
+				tree.statement.canHaveZeroLenStr = true // an empty element is still an argument
 				if err := tree.nextParameter(); err != nil {
 					return err
 				}
@@ -556,6 +559,7 @@ func processStatementArrays(tree *ParserT, value []rune, v any, exec bool) error
 				}
 				value = []rune(s.(string))
 				appendToParam(tree, value...)
+				tree.statement.canHaveZeroLenStr = true // an empty element is still an argument
 				if err := tree.nextParameter(); err != nil {
 					return err
 				}
